@@ -383,10 +383,12 @@ func payloadShapes(r *Rng) []byte {
 		func() []byte { return []byte(`{"id":"$ID","token":"$TOKEN","priority":99999999999999999999}`) },
 		func() []byte { return []byte(`{"id":"","token":""}`) },
 		func() []byte { return []byte(`{"id":"$ID","token":""}`) },
-		func() []byte { return []byte(`{"id":"$ID","token":"$TOKEN"}`) },                // same as live (new revision)
+		func() []byte { return []byte(`{"id":"$ID","token":"$TOKEN"}`) },                                 // same as live (new revision)
 		func() []byte { return []byte(`{"id":"$SELF","token":"00000000-0000-4000-8000-00000000abcd"}`) }, // own id, other token
-		func() []byte { return []byte(`{"id":"intruder","token":"$TOKEN","priority":3}`) }, // other id, live token
-		func() []byte { return []byte(`{"id":"intruder","token":"00000000-0000-4000-8000-000000000001","priority":7}`) },
+		func() []byte { return []byte(`{"id":"intruder","token":"$TOKEN","priority":3}`) },               // other id, live token
+		func() []byte {
+			return []byte(`{"id":"intruder","token":"00000000-0000-4000-8000-000000000001","priority":7}`)
+		},
 		func() []byte { return []byte(`{"id":"intruder","token":"00000000-0000-4000-8000-000000000002"}`) },
 		func() []byte { return []byte(" \n\t") },
 		func() []byte { return []byte{0xff, 0xfe, 0x00, 0x01} },
